@@ -892,6 +892,9 @@ func (x *Exec) tick(horizon time.Duration) bool {
 	default:
 	}
 	remain := horizon - x.Elapsed() + time.Second
+	if remain > time.Minute { // a tick with no timer due within a virtual minute is a no-op
+		remain = time.Minute
+	}
 	tm := time.NewTimer(remain)
 	defer tm.Stop()
 	select {
